@@ -312,7 +312,7 @@ def run_kani_unit(prop, unit, tier, report):
                 rec["why"] = "panic harness without MUST-NOT-REACH cover"
             elif (r["covers_sat"] or 0) > 0:
                 rec["verdict"] = "fail"
-                rec["real_failed"] = [{"description": "the call returned normally for some out-of-range input (MUST-NOT-REACH cover satisfied)", "location": ""}]
+                rec["real_failed"] = [{"description": "a MUST-NOT-REACH cover was satisfied: the call returned normally for some out-of-range input, or the value was modified before the input was rejected", "location": ""}]
             elif und and not real:
                 rec["verdict"] = "undecided"
                 rec["why"] = "; ".join(fc["description"] for fc in und)
@@ -540,6 +540,7 @@ def run_verus_unit(prop, unit, tier, report):
            "verdict": None, "unit_cfg": unit, "verus_file": outfile, "smt_ms": smt_ms}
     if j is None or verified is None:
         rec["verdict"] = "undecided"
+        rec["verus_unsupported"] = True
         rec["why"] = "verus produced no verification results (front-end error / unsupported construct): " + "\n".join(out.splitlines()[:30])
     elif errors == 0 and rc == 0:
         if verified == 0:
@@ -564,6 +565,7 @@ def run_verus_unit(prop, unit, tier, report):
             rec["verdict"] = "fail"; rec["status"] = "FAILED"
         elif und:
             rec["verdict"] = "undecided"; rec["why"] = "; ".join(fc["description"] for fc in und)
+            rec["verus_unsupported"] = True
         else:
             rec["verdict"] = "pass"; rec["status"] = "SUCCESSFUL"
     # canary proof fns must fail
@@ -617,13 +619,18 @@ def finish(prop, cfg, tier, report, t0):
     # through closures that Z3 cannot see through), not a refutation: undecided, never VIOLATION.
     by_short = {r["short"]: r for r in report["harnesses"]}
     for rec in report["harnesses"]:
-        if rec["verdict"] == "fail" and rec["backend"].startswith("verus"):
+        if (rec["verdict"] == "fail" or (rec["verdict"] == "undecided" and rec.get("verus_unsupported"))) and rec["backend"].startswith("verus"):
             twins = rec["unit_cfg"].get("kani_twins", [])
             if twins and all(by_short.get(t, {}).get("verdict") == "pass" for t in twins):
+                was_unsupported = rec["verdict"] == "undecided"
                 rec["verdict"] = "downgraded"
                 report.setdefault("downgrades", []).append(rec["short"])
-                rec["why"] = ("Verus could not discharge: " + "; ".join(fc["description"] for fc in rec.get("real_failed", [])) +
-                              " -- but every complete Kani twin (" + ", ".join(twins) + ") holds on the same functions: proof-automation failure, not a refutation")
+                if was_unsupported:
+                    rec["why"] = ("Verus could not process the extracted text (construct outside its subset / resource limit): " + (rec.get("why") or "")[:400] +
+                                  " -- every complete Kani twin (" + ", ".join(twins) + ") holds on the same functions: the for-all-T proof is unavailable on this tree, the twins decide the instances they cover")
+                else:
+                    rec["why"] = ("Verus could not discharge: " + "; ".join(fc["description"] for fc in rec.get("real_failed", [])) +
+                                  " -- but every complete Kani twin (" + ", ".join(twins) + ") holds on the same functions: proof-automation failure, not a refutation")
     for rec in report["harnesses"]:
         if rec["verdict"] != "fail":
             continue
